@@ -488,7 +488,8 @@ class Visitor(
 
     def visit_table(self, source: 'dsl.Table') -> None:
         self.context.origins[source] = origin = self.resolve_source(source)
-        features = [self.generate_feature(f) for f in sorted(self.context.tables[source].fields)]
+        # nothing registered means nothing is known about the use of this table - offer all of its fields
+        features = [self.generate_feature(f) for f in sorted(self.context.tables[source].fields or source.features)]
         predicate = self.context.tables[source].predicate
         if predicate is not None:
             predicate = self.generate_feature(predicate)
@@ -496,7 +497,14 @@ class Visitor(
         self.context.symbols.push(self.generate_table(origin, features, predicate))
 
     def visit_reference(self, source: 'dsl.Reference') -> None:
-        super().visit_reference(source)
+        tables = self.context.tables
+        # the referenced instance is only used through its handle - the hints collected for a same-named bare table
+        # of this context (e.g. the other side of a self join) do not apply to it
+        self.context.tables = self.context.Tables()
+        try:
+            super().visit_reference(source)
+        finally:
+            self.context.tables = tables
         origin, handle = self.generate_reference(self.context.symbols.pop(), source.name)
         self.context.origins[source] = handle
         self.context.symbols.push(origin)
